@@ -432,7 +432,7 @@ SLICES_T = [("Electrolytes_MC", "ions_q", ION_ACTIONS, 2000),
             ("Electrolytes_MC", "ions4_t", [], 2000),
             ("Electrolytes_MCT", "dh_t", ["GenChooseDH"], 5000)]
 DH_CLASSES = {"lim-q", "lim-irr", "ext-q", "ext-irr", "dav-q", "dav-irr", "A-irr", "B-irr", "lap-irr", "eap-irr",
-              "dap-irr"}
+              "dap-irr", "eap-irr-samez", "eap-irr-neutral", "lap-irr-samez", "dap-irr-neutral"}
 
 
 def _nontrivial(case):
